@@ -108,6 +108,7 @@ type Machine struct {
 	rangeSeen     map[string]bool
 	AltFilter     func(st *State, v Val) Val     // applied to the alternative a fork takes
 	OpaqueEq      func(a, b string) (eq, known bool) // equality of two opaque tokens, when the scenario knows it
+	CycleCheck    bool                           // exact runs: the same state at the same place twice is non-termination (scripted-reader scenarios)
 	SampleOrders  bool                           // range over a map too large to enumerate: fork three orders (see *ssa.Range)
 	ExtGlobals    map[string]Val                 // values of package-level variables outside the repository (io.EOF, ...)
 	NoExactConcat bool                           // tape mode: string concatenation keeps only emptiness
@@ -622,13 +623,13 @@ func (m *Machine) run(st *State) []*State {
 		var seenKeys map[string]bool
 		for s.Status == stRun {
 			s.Steps++
-			if m.Alpha == nil && s.Steps%5000 == 0 && s.Steps >= 20000 {
+			if m.CycleCheck && m.Alpha == nil && s.Steps%5000 == 0 && s.Steps >= 20000 {
 				// an exact run is deterministic: the same state at the same place twice is a loop that never ends
 				if seenKeys == nil {
 					seenKeys = map[string]bool{}
 				}
 				fr := s.top()
-				k := fmt.Sprintf("%p/%d/%d/%d|", fr.Blk, fr.PC, len(s.Frames), oracleProgress) + m.Key(s.Clone())
+				k := fmt.Sprintf("%p/%d/%d/%d|", fr.Blk, fr.PC, len(s.Frames), oracleProgress) + exactDigest(s)
 				if seenKeys[k] {
 					s.Status = stStuck
 					s.Msg = fmt.Sprintf("NONTERMINATION: the same state is reached again in %s (a loop that changes nothing)", fname(fr.Fn))
@@ -3211,4 +3212,28 @@ func permutations(n int) [][]int {
 	}
 	rec(nil, make([]bool, n))
 	return out
+}
+
+// exactDigest renders everything a deterministic run on exact values depends on: every register of every frame
+// (rendered through the heap, so that what a pointer leads to is part of it) and the package-level variables.
+// Unlike Key it abstracts nothing: two equal digests at the same instruction mean the run repeats itself.
+func exactDigest(st *State) string {
+	var b strings.Builder
+	for _, fr := range st.Frames {
+		fmt.Fprintf(&b, "F%p/%d/%d{", fr.Blk, fr.PC, len(fr.Regs))
+		keys := make([]string, 0, len(fr.Regs))
+		byName := map[string]ssa.Value{}
+		for v := range fr.Regs {
+			n := fmt.Sprintf("%s@%p", v.Name(), v)
+			keys = append(keys, n)
+			byName[n] = v
+		}
+		sort.Strings(keys)
+		for _, n := range keys {
+			b.WriteString(n + "=" + deepRender(st, fr.Regs[byName[n]], 0) + ";")
+		}
+		b.WriteString("}")
+	}
+	b.WriteString(heapDigest(st, nilV{}))
+	return b.String()
 }
